@@ -80,7 +80,9 @@ theorem structure_regenerated :
     Gen.GroupBalancer.topics32FreshPerMember = true ∧
     Gen.GroupBalancer.topicMetadataReaders = (2, 2) ∧
     Gen.GroupBalancer.extractTopicsIsFirstSeenThenSorted = true ∧
-    Gen.GroupBalancer.makeAssignmentsRangesOverOwnTopics = true := by decide
+    Gen.GroupBalancer.makeAssignmentsRangesOverOwnTopics = true ∧
+    Gen.GroupBalancer.assignTopicPartitionsDataflow = true ∧
+    Gen.GroupBalancer.nextGenerationDataflow = true := by decide
 
 /-! ## 1. Range -/
 
